@@ -3,7 +3,7 @@
 From Coq Require Import String List Bool NArith ZArith.
 From OP Require Import Base.Str Base.Check Base.ParserTypes Base.Res Base.Json Base.Sx Base.DTree
                        Gen.GParser Gen.GChecks Gen.GPolicy
-                       Model.Leaf Model.SR Model.Tokenize Model.Print Model.Eval Model.Trace Model.Enforce Model.CheckRules Model.Load Model.Pick Model.Http Model.Generator Model.Checker Model.Tools
+                       Model.Leaf Model.SR Model.Tokenize Model.Print Model.Eval Model.Trace Model.Enforce Model.CheckRules Model.Load Model.Pick Model.Http Model.Generator Model.Checker Model.Tools Model.Validator
                        Spec.Grammar Spec.ListRule Spec.Template Spec.LeafSpec Spec.Layering.
 Import ListNotations.
 Set Implicit Arguments.
@@ -562,6 +562,15 @@ Definition suite_tools (args : list sx) : sx :=
   | _ => bad
   end.
 
+(* oslopolicy-validator: [conf; fsys] -> return code *)
+Definition suite_validate (args : list sx) : sx :=
+  match args with
+  | [cf; fs] => match dlconf cf, dfsys fs with
+                | Some cf', Some fs' => A (if validate cf' fs' then 0 else 1)
+                | _, _ => bad end
+  | _ => bad
+  end.
+
 Definition wire_main (x : sx) : sx :=
   match x with
   | L (A 1 :: args) => suite_tokenize args
@@ -581,5 +590,6 @@ Definition wire_main (x : sx) : sx :=
   | L (A 15 :: args) => suite_sample args
   | L (A 16 :: args) => suite_checker args
   | L (A 17 :: args) => suite_tools args
+  | L (A 18 :: args) => suite_validate args
   | _ => sx_err 1
   end.
